@@ -32,10 +32,10 @@ class Pat:
     def search(self, val):
         if not isinstance(val, str):
             raise TypeError("expected string or bytes-like object, got %r" % type(val).__name__)
-        key = (self.pattern, val)
+        key = (self.pattern, bool(self.flags & real_re.IGNORECASE), val)
         if key not in self.owner.table:
             # a value the harness did not anticipate: still an arbitrary boolean (declared on the fly)
-            self.owner.table[key] = self.owner.x.zbool("m_dyn|%s|%s" % (self.pattern, json.dumps(val)))
+            self.owner.table[key] = self.owner.x.zbool("m_dyn|%s|%s|%s" % (self.pattern, int(key[1]), json.dumps(val)))
         b = self.owner.table[key]
         return S.SBool(b) if S.is_z3(b) else b
 
@@ -64,7 +64,7 @@ class ReStub:
 SELECTS = [None, ["title"], ["missing"], ["num"], ["title", "app"]]
 
 
-def h_classify(x, n, r, vary):
+def h_classify(x, n, r, vary, share=False):
     """vary: set of aspects explored symbolically per rule: depth, select, regex, icase"""
     stub = ReStub(x)
     if x.sym:
@@ -81,6 +81,7 @@ def h_classify(x, n, r, vary):
         evs.append(mk_event(x, T[i], D[i], dict(data), id=100 + i, aligned=False))
     # rules
     rules = []
+    shared = {}
     for q in range(r):
         depth = 1 + x.choice("depth%d" % q, 3) if "depth" in vary else 1 + (q % 3)
         sel = SELECTS[x.choice("sel%d" % q, len(SELECTS))] if "select" in vary else None
@@ -89,16 +90,38 @@ def h_classify(x, n, r, vary):
         m = {}
         for i in range(n):
             for key in ("title", "app"):
-                m[(i, key)] = x.zbool("m_r%d_e%d_%s" % (q, i, key))
+                if share:
+                    if ("cs", i, key) not in shared:
+                        shared[("cs", i, key)] = x.zbool("m_shared_cs_e%d_%s" % (i, key))
+                        shared[("ci", i, key)] = x.zbool("m_shared_ci_e%d_%s" % (i, key))
+                        x.assume(S.Implies(shared[("cs", i, key)], shared[("ci", i, key)]))  # a case-sensitive hit is a case-insensitive hit
+                    m[(i, key)] = shared[("ci" if icase else "cs", i, key)]
+                else:
+                    m[(i, key)] = x.zbool("m_r%d_e%d_%s" % (q, i, key))
         if x.sym:
-            pattern = ("P%d" % q) if nonempty else ""
-            for (i, key), b in m.items():
-                stub.table[(pattern, vals[i][key])] = b
+            pattern = (("P%d" % q) if not share else "PSHARED") if nonempty else ""
+            for (i, key), b in list(m.items()):
+                tkey = (pattern, bool(icase), vals[i][key])
+                if tkey in stub.table:
+                    m[(i, key)] = stub.table[tkey]  # same regex text and flags as an earlier rule: same outcome
+                else:
+                    stub.table[tkey] = b
+        elif share:
+            # one regex text for every rule: exact value where the case-sensitive search hits, swapped case
+            # where only the case-insensitive search hits
+            alts = []
+            for i in range(n):
+                for key in ("title", "app"):
+                    if shared[("cs", i, key)]:
+                        alts.append(real_re.escape(vals[i][key]))
+                    elif shared[("ci", i, key)]:
+                        alts.append(real_re.escape(vals[i][key].swapcase()))
+            pattern = ("|".join(alts) if alts else "(?!)") if nonempty else ""
         else:
             alts = [real_re.escape(vals[i][key].swapcase() if icase else vals[i][key]) for (i, key), b in m.items() if b]
             for nm, b in x.values.items():
                 if nm.startswith("m_dyn|P%d|" % q) and b:
-                    v = json.loads(nm.split("|", 2)[2])
+                    v = json.loads(nm.split("|", 3)[3])
                     alts.append("^%s$" % real_re.escape(v.swapcase() if icase else v))
             pattern = ("|".join(alts) if alts else "(?!)") if nonempty else ""
         rd = {"regex": pattern}
@@ -120,11 +143,12 @@ def h_classify(x, n, r, vary):
     # flags passed to the regex engine
     if x.sym:
         for q, ru in enumerate(rules):
+            rx = ru["rule"].regex
             if ru["nonempty"]:
-                pats = [p for p in stub.compiled if p.pattern == "P%d" % q]
-                obl.append(("ignorecase-passed-iff-asked-r%d" % q, len(pats) == 1 and bool(pats[0].flags & real_re.IGNORECASE) == ru["icase"]))
+                # the pattern object this very rule searches with carries IGNORECASE iff the rule asked for it
+                obl.append(("ignorecase-passed-iff-asked-r%d" % q, isinstance(rx, Pat) and bool(rx.flags & real_re.IGNORECASE) == ru["icase"]))
             else:
-                obl.append(("empty-regex-not-compiled-r%d" % q, all(p.pattern != "" for p in stub.compiled)))
+                obl.append(("empty-regex-not-compiled-r%d" % q, rx is None and all(p.pattern != "" for p in stub.compiled)))
     else:
         for q, ru in enumerate(rules):
             obl.append((("ignorecase-passed-iff-asked-r%d" if ru["nonempty"] else "empty-regex-not-compiled-r%d") % q, True))
@@ -194,6 +218,11 @@ def h_frame(x, n, which):
     if which == "split_url_events":
         out = SU.split_url_events(work)
         added = {"$protocol", "$domain", "$path", "$params", "$options", "$identifier"}
+    elif which == "simplify_string_other_key":
+        for w_, d_ in zip(work, datas):
+            w_.data["label"] = d_["label"] = "(3) " + d_["title"]
+        out = SI.simplify_string(work, "label")
+        added = {"label"}
     else:
         out = SI.simplify_string(work, "title")
         added = {"title"}
@@ -211,8 +240,9 @@ def h_frame(x, n, which):
             else:
                 obl.append(("no-url-no-keys-e%d" % i, not (added & set(o.data))))
         else:
-            obl.append(("title-still-a-string-e%d" % i, isinstance(o.data.get("title"), str) and len(o.data["title"]) <= len(datas[i]["title"]) + 3))
-    if which == "simplify_string":
+            k_ = "label" if which == "simplify_string_other_key" else "title"
+            obl.append(("title-still-a-string-e%d" % i, isinstance(o.data.get(k_), str) and len(o.data[k_]) <= len(datas[i][k_]) + 3))
+    if which.startswith("simplify_string"):
         obl.append(("input-not-modified", all(w.data == d for w, d in zip(work, datas))))
     return obl, [len(out)]
 
@@ -228,7 +258,8 @@ def harnesses(tier):
     for n, r, vary, budget in spec:
         hs.append((Harness(PROP, "classify-n%d-r%d-%s" % (n, r, "+".join(vary)), h_classify, dict(n=n, r=r, vary=vary),
                            "categorize + tag, %d events, %d rules, symbolic %s, regex engine stubbed by an arbitrary boolean per (pattern, value)" % (n, r, ",".join(vary)), split_depth=8), budget))
-    for which in ("split_url_events", "simplify_string"):
+    hs.append((Harness(PROP, "classify-n1-r2-shared-pattern-icase", h_classify, dict(n=1, r=2, vary=("icase", "depth"), share=True), "two rules with the SAME regex text and independent ignore_case flags", split_depth=8), 600))
+    for which in ("split_url_events", "simplify_string", "simplify_string_other_key"):
         hs.append((Harness(PROP, "%s-frame-n2" % which, h_frame, dict(n=2, which=which), "%s: count, order, instants, durations, ids and unrelated keys preserved (concrete URL/title pool)" % which), 300))
     return hs
 
